@@ -6,8 +6,11 @@ import (
 	"fmt"
 	"go/types"
 	"os"
+	"os/exec"
+	"path/filepath"
 	"runtime/debug"
 	"sort"
+	"strings"
 
 	"golang.org/x/tools/go/ssa"
 )
@@ -68,6 +71,7 @@ type State struct {
 	watch   map[string]func(*State) []*Term // per held lock: blocks its owner's invariants read (for frame lemmas)
 	loopBase *State           // state at the head of the enclosing loop that acquires locks (baseline for rely)
 	loopBasePending bool
+	pendingHavoc    []*Term // blocks whose contents a loop may have rewritten (applied after the invariant is assumed)
 	path    []int  // block indices visited in the top frame (for naming / debugging)
 	// known facts to dedupe no-panic obligations: term strings known non-nil
 	nonnil map[string]bool
@@ -362,8 +366,54 @@ func (s *State) nameLoad(t *Term) *Term {
 	return c
 }
 
+// isLocal: the block was allocated by this invocation (syntactically known, or provably so).
+func (s *State) isLocal(blk *Term) bool {
+	if s.local[blk.String()] {
+		return true
+	}
+	anyClean := false
+	for _, c := range s.clean {
+		if c {
+			anyClean = true
+		}
+	}
+	if !anyClean || s.entry == nil || s.e.opts.WorkDir == "" {
+		return false
+	}
+	// is "blk was already allocated at entry" contradictory with the quantifier-free path condition?
+	var pc []*Term
+	for _, t := range s.pc {
+		if !hasQuantifier(t) {
+			pc = append(pc, t)
+		}
+	}
+	pc = append(pc, Lt(blk, s.entry.next), Neq(blk, IntLit(0))) // block 0 is nil: nothing lives there
+	s.e.localChecks++
+	file := filepath.Join(s.e.opts.WorkDir, fmt.Sprintf("local_%d.smt2", s.e.localChecks))
+	if err := os.WriteFile(file, []byte(s.e.sy.Query(s.e.stringAxiomsFor(pc), pc, nil, false)), 0o644); err != nil {
+		return false
+	}
+	out, _ := exec.Command("z3", "-T:1", file).Output()
+	if os.Getenv("GOVC_DIRTY") != "" {
+		fmt.Fprintf(os.Stderr, "local-check %s -> %s (kept %s)\n", blk, strings.TrimSpace(string(out)), file)
+		if data, err := os.ReadFile(file); err == nil {
+			os.WriteFile(fmt.Sprintf("/tmp/probe/local_%d.smt2", s.e.localChecks), data, 0o644)
+		}
+	} else {
+		os.Remove(file)
+	}
+	if strings.HasPrefix(string(out), "unsat") {
+		if s.local == nil {
+			s.local = map[string]bool{}
+		}
+		s.local[blk.String()] = true
+		return true
+	}
+	return false
+}
+
 func (s *State) storeAt(blk, off *Term, v Value) {
-	if !s.local[blk.String()] {
+	if !s.isLocal(blk) {
 		s.dirty()
 	}
 	// frame lemmas: blocks the monitor invariants of held locks read are untouched by a store elsewhere
@@ -374,8 +424,13 @@ func (s *State) storeAt(blk, off *Term, v Value) {
 		for k, m := range s.mem {
 			before[k] = m
 		}
-		for _, w := range s.watch {
-			watched = append(watched, w(s)...)
+		var wk []string
+		for k := range s.watch {
+			wk = append(wk, k)
+		}
+		sort.Strings(wk)
+		for _, k := range wk {
+			watched = append(watched, s.watch[k](s)...)
 		}
 	}
 	defer func() {
@@ -383,7 +438,11 @@ func (s *State) storeAt(blk, off *Term, v Value) {
 			if x.String() == blk.String() {
 				continue
 			}
-			for k, m0 := range before {
+			for _, k := range allKinds {
+				m0, ok := before[k]
+				if !ok {
+					continue
+				}
 				if m1 := s.mem[k]; m1 != m0 {
 					s.assume(Implies(Neq(blk, x), mk("=", SBool, Select(m1, x), Select(m0, x))))
 				}
@@ -405,14 +464,16 @@ func (s *State) storeAt(blk, off *Term, v Value) {
 		}
 		inner[sl.K] = Store(in, Add(off, IntLit(int64(i))), v.L[i])
 	}
-	for k, in := range inner {
-		s.mem[k] = s.define("M"+k.String(), Store(s.memOf(k), blk, in))
+	for _, k := range allKinds {
+		if in, ok := inner[k]; ok {
+			s.mem[k] = s.define("M"+k.String(), Store(s.memOf(k), blk, in))
+		}
 	}
 }
 
 // havocBlock replaces the whole contents of a block (all kinds).
 func (s *State) havocBlock(blk *Term) {
-	if !s.local[blk.String()] {
+	if !s.isLocal(blk) {
 		s.dirty()
 	}
 	for _, k := range allKinds {
@@ -454,8 +515,10 @@ func (s *State) havocAll() {
 	s.maps = map[string]*Term{}
 	s.bumpNext()
 	for _, k := range keeps {
-		for kd, val := range k.vals {
-			s.mem[kd] = s.define("M"+kd.String(), Store(s.memOf(kd), k.blk, val))
+		for _, kd := range allKinds {
+			if val, ok := k.vals[kd]; ok {
+				s.mem[kd] = s.define("M"+kd.String(), Store(s.memOf(kd), k.blk, val))
+			}
 		}
 	}
 	old := s.nonnil
@@ -528,7 +591,13 @@ type heldLock struct {
 // heldTerm: the lock at (blk, off) is one of the locks held on this path.
 func (s *State) heldTerm(blk, off *Term) *Term {
 	var alts []*Term
-	for _, h := range s.held {
+	var ks []string
+	for k := range s.held {
+		ks = append(ks, k)
+	}
+	sort.Strings(ks)
+	for _, k := range ks {
+		h := s.held[k]
 		alts = append(alts, And(Eq(blk, h.blk), Eq(off, h.off)))
 	}
 	return Or(alts...)
